@@ -50,7 +50,15 @@ class Flow:
                 if st["k"] != "=":
                     continue
                 dst = st["lhs"]["l"]
-                if st["lhs"]["p"] and st["lhs"]["p"][0] == "*":
+                fnames = [e["n"] or str(e["f"]) for e in st["lhs"]["p"] if isinstance(e, dict) and "f" in e]
+                if fnames:
+                    # field-sensitive: a store to `x.f` feeds later reads of a field named f, not every read through x
+                    base = dst
+                    dst = ("F", fnames[-1])
+                    # through an unnamed temporary pointer (vec!'s box, MaybeUninit writes) also reach what it aliases
+                    if st["lhs"]["p"][0] == "*" and not (1 <= base <= fn.argc) and fn.local_name(base) is None:
+                        deref_stores.append((base, st, (bi, si)))
+                elif st["lhs"]["p"] and st["lhs"]["p"][0] == "*":
                     deref_stores.append((dst, st, (bi, si)))
                 for o in rv_operands(st["rv"]):
                     self._add_operand(dst, o, (bi, si))
@@ -70,7 +78,7 @@ class Flow:
         # A store through a pointer also reaches whatever the pointer was
         # derived from (`p = &mut x; *p = v` taints x): may-alias, coarse.
         for dst, st, where in deref_stores:
-            roots = {v for k, v in self.origins(dst) if k == "local" and v != dst}
+            roots = {v for k, v in self.origins(dst) if k == "local" and v != dst} | {dst}
             for r in roots:
                 for o in rv_operands(st["rv"]):
                     self._add_operand(r, o, where)
@@ -83,6 +91,7 @@ class Flow:
             for e in p["p"]:
                 if isinstance(e, dict) and "f" in e:
                     self.src.setdefault(dst, []).append(("field", e["n"] or str(e["f"]), where))
+                    self.src.setdefault(dst, []).append(("local", ("F", e["n"] or str(e["f"])), where))
         elif "c" in o:
             self.src.setdefault(dst, []).append(("const", o["c"], where))
 
@@ -97,9 +106,12 @@ class Flow:
             if l in seen:
                 continue
             seen.add(l)
-            leaves.add(("local", l))
-            if 1 <= l <= self.fn.argc:
-                leaves.add(("arg", l))
+            if isinstance(l, tuple):
+                leaves.add(("fieldstore", l[1]))
+            else:
+                leaves.add(("local", l))
+                if 1 <= l <= self.fn.argc:
+                    leaves.add(("arg", l))
             for kind, payload, where in self.src.get(l, []):
                 if restrict_blocks is not None and where[0] not in restrict_blocks:
                     continue
